@@ -106,6 +106,18 @@ class Opaque:
     def __repr__(self): return f'<{self.tag}:{self.data!r}>'
 
 
+class Blob:
+    """An opaque library value whose fields may be projected (each projection is another Blob)."""
+    __slots__ = ('tag', 'sub')
+
+    def __init__(self, tag): self.tag = tag; self.sub = {}
+    def field(self, i):
+        if i not in self.sub: self.sub[i] = [Blob('%s.%s' % (self.tag, i))]
+        return self.sub[i], 0
+    def clone(self): return self
+    def __repr__(self): return '<blob %s>' % self.tag
+
+
 class Unit:
     def __repr__(self): return '()'
 
@@ -131,7 +143,7 @@ def clone_val(v, memo=None):
     if isinstance(v, VecV): return VecV([clone_val(x) for x in v.items], v.ty)
     if isinstance(v, StrV): return StrV(v.chars)
     if isinstance(v, Closure): return Closure(v.span, v.names, [clone_val(x) for x in v.f])
-    if isinstance(v, Opaque): return v
+    if isinstance(v, (Opaque, Blob)): return v
     if hasattr(v, 'clone'): return v.clone()
     raise TypeError('clone_val: ' + repr(type(v)))
 
